@@ -811,6 +811,8 @@ class ExprMixin:
 
     # -------------------------------------------------------------- comprehensions
     def iter_elem(self, it: Node, site, st=None) -> Node:
+        if it.op == "ListOf" and it.args:
+            return it.args[0]           # a homogeneous list: its generic element
         if it.op == "Zip":
             return self.mk("Tuple", tuple(self.iter_elem(a, site) for a in it.args), None, site)
         if it.op == "Enumerate":
